@@ -182,3 +182,44 @@ class Selection:
         nz = zint(witness_n)
         ok = z3.And(nz >= 0, nz < zint(self.total), zbool(self.keep(witness_n)))
         c.assume(z3.Implies(ok, self.count.z > 0))
+
+
+class SymSet:
+    """A set of integers given by its membership predicate (set(array) of an index array of symbolic length)."""
+    _pyvc_model_class = True
+
+    def __init__(self, member):
+        self.member = member
+
+    def _contains(self, x):
+        return self.member(x)
+
+    def intersection(self, other):
+        """PY-SET-INTERSECTION with an array of at most a concrete number of items: only its emptiness is modelled"""
+        comp = getattr(other, 'compressed_of', None)
+        if comp is not None:
+            _, flat, keep = comp
+            n = flat.shape[0]
+            if isinstance(n, int):
+                hits = [s_and(truthy(keep.fn((j,))), self.member(flat.fn((j,)))) for j in range(n)]
+                return _Emptiness(core.s_or(*hits) if hits else False)
+        n = getattr(other, 'shape', (None,))[0] if hasattr(other, 'shape') else None
+        if isinstance(n, int):
+            return _Emptiness(core.s_or(*[self.member(other.fn((j,))) for j in range(n)]) if n else False)
+        raise Unsupported('intersection of a symbolic set with a sequence of symbolic length')
+
+    def _len(self):
+        raise Unsupported('len of a symbolic set')
+
+    def _iterate(self):
+        raise Unsupported('iteration over a symbolic set')
+
+
+class _Emptiness:
+    _pyvc_model_class = True
+
+    def __init__(self, nonempty):
+        self.nonempty = nonempty
+
+    def _truthy(self):
+        return self.nonempty
